@@ -35,7 +35,7 @@ Definition chunks (S : nat) (p : list N) : list (list N) := chunks_fuel (List.le
 Fixpoint split_line (bs acc : list N) : option (list N * list N) :=
   match bs with
   | [] => None
-  | b :: t => if (b =? 10)%N then Some (rev acc, t) else split_line t (b :: acc)
+  | b :: t => if (b =? 10)%N then Some (frev acc, t) else split_line t (b :: acc)
   end.
 
 Section Spec.
